@@ -35,6 +35,7 @@ fn gen_case(rng: &mut Rng) -> Case {
     cfg.statics = rng.chance(2, 3);
     cfg.info = rng.chance(1, 3);
     cfg.rand = rng.chance(1, 3);
+    cfg.reset = rng.chance(1, 3);
     cfg.join_prob = 7;
     let prog = gen_program(rng, &cfg);
     let iters = rng.range(2, 6);
